@@ -12,6 +12,10 @@ CONSTANTS
   AtomicNew = TRUE
   AtomicLine = TRUE
   ObjCid = TRUE
+  Bufs = {}
+  Cap = 0
+  Wins = {}
+  OwnStorage = TRUE
   Sink <- KeepAll
-INVARIANTS TypeOK Unique AliasSame WholeLines OnePerCall CounterOk
+INVARIANTS TypeOK Unique AliasSame WholeLines OnePerCall CounterOk OperandsUntouched
 CHECK_DEADLOCK FALSE
